@@ -87,6 +87,88 @@ fn boxcar(capacity: u32, items: u32) {
     println!("boxcar ok: count {c}, reader saw {seen} items");
 }
 
+/// Script-driven variant: the operation mix of every thread is drawn from `seed`, so different
+/// argv values explore different small programs under Miri (each again under many Miri seeds).
+fn boxcar_script(seed: u64) {
+    struct Rng(u64);
+    impl Rng {
+        fn next(&mut self) -> u64 {
+            self.0 = self.0.wrapping_add(0x9E3779B97F4A7C15);
+            let mut z = self.0;
+            z = (z ^ (z >> 30)).wrapping_mul(0xBF58476D1CE4E5B9);
+            z = (z ^ (z >> 27)).wrapping_mul(0x94D049BB133111EB);
+            z ^ (z >> 31)
+        }
+        fn below(&mut self, n: u64) -> u64 {
+            self.next() % n
+        }
+    }
+    let mut rng = Rng(seed);
+    let capacity = [0u32, 1, 1, 33][rng.below(4) as usize];
+    let cols = 1 + rng.below(2) as u32;
+    let vec = Arc::new(RawVec::<(u32, Box<u32>)>::with_capacity(capacity, cols));
+    let threads: Vec<_> = (0..3u32)
+        .map(|t| {
+            let v = vec.clone();
+            let mut r = Rng(rng.next());
+            std::thread::spawn(move || {
+                let mut mine: Vec<(u32, u32)> = Vec::new();
+                let mut next = t * 100_000;
+                let fill = |x: &(u32, Box<u32>), c: &mut [nucleo::Utf32String]| {
+                    for col in c.iter_mut() {
+                        *col = format!("{}", x.0).as_str().into();
+                    }
+                };
+                for _ in 0..5 {
+                    match r.below(8) {
+                        0..=2 => {
+                            let val = next;
+                            next += 1;
+                            mine.push((v.push((val, Box::new(val)), fill), val));
+                        }
+                        3 | 4 => {
+                            let n = [1u32, 5, 30, 33][r.below(4) as usize];
+                            let batch: Vec<(u32, Box<u32>)> = (0..n).map(|k| (next + k, Box::new(next + k))).collect();
+                            next += n;
+                            v.extend(batch.into_iter(), fill);
+                        }
+                        5 | 6 => {
+                            let base = [0u32, 28, 60, 92][r.below(4) as usize];
+                            for i in base..base + 8 {
+                                if let Some(it) = v.get(i) {
+                                    assert_eq!(it.data.0, *it.data.1);
+                                    assert!(it.matcher_columns.iter().all(|c| c.to_string() == format!("{}", it.data.0)));
+                                }
+                            }
+                        }
+                        _ => {
+                            let c = v.count();
+                            let start = c.saturating_sub(6);
+                            let (end, it) = v.snapshot(start);
+                            assert_eq!(it.filter(|(_, x)| x.as_ref().map_or(true, |it| *it.data.1 == it.data.0)).count() as u32, end - start);
+                        }
+                    }
+                    std::thread::yield_now();
+                }
+                for (i, val) in mine {
+                    let it = v.get(i).expect("own push must be visible");
+                    assert_eq!((it.data.0, *it.data.1), (val, val));
+                }
+            })
+        })
+        .collect();
+    for t in threads {
+        t.join().unwrap();
+    }
+    let c = vec.count();
+    let mut seen = std::collections::BTreeSet::new();
+    for i in 0..c {
+        let it = vec.get(i).expect("no holes without faults");
+        assert!(seen.insert(it.data.0), "value stored twice");
+    }
+    println!("boxcar-script ok: seed {seed} capacity {capacity} cols {cols} count {c}");
+}
+
 fn nucleo(capacity: u32, items: u32) {
     nucleo::verif::knobs::set_capacity(Some(capacity));
     let notified = Arc::new(std::sync::atomic::AtomicU32::new(0));
@@ -246,6 +328,7 @@ fn main() {
     let num = |i: usize, d: u32| a.get(i).and_then(|x| x.parse().ok()).unwrap_or(d);
     match a.get(1).map(|s| s.as_str()) {
         Some("boxcar") => boxcar(num(2, 1), num(3, 40)),
+        Some("boxcar-script") => boxcar_script(num(2, 1) as u64),
         Some("nucleo") => nucleo(num(2, 1), num(3, 30)),
         Some("sort") => sort(num(2, 4100), num(3, 2) as usize),
         Some("seqdiff") => std::process::exit(seq::main(a.get(2).expect("seqdiff FILE"))),
